@@ -466,6 +466,13 @@ func genSpec(r *rng.R, shape int, big bool) fileSpec {
 	counter := map[string]int{}
 	tag := 0
 	maxEntries := rng.Pick(r, []int{1, 2, 3, 3, 5, 8, 14, 20})
+	// ADV advices carry twelve-digit amounts and the ADV batch control twenty-digit totals: one time in three an ADV
+	// file holds single-advice batches of several hundred billion cents, so that the consolidated total of two
+	// batches needs more than twelve digits while each batch alone does not
+	bigADV := shape == 3 && r.Chance(1, 3)
+	if bigADV {
+		maxEntries = 1
+	}
 	presetNums := r.Chance(1, 4)
 	num := 0
 	for i := 0; i < nb; i++ {
@@ -503,6 +510,9 @@ func genSpec(r *rng.R, shape int, big bool) fileSpec {
 			}
 			tag++
 			e := entrySpec{Seq: seq, Amount: r.Range(1, 99999), Tag: tag}
+			if bigADV {
+				e.Amount = 300000000000 + r.Intn(600000000000)
+			}
 			switch h.Svc {
 			case 225:
 				e.Debit = true
